@@ -67,6 +67,37 @@ Fixpoint dotp (k w : list R) : R :=
   match k, w with a :: k', b :: w' => a * b + dotp k' w' | _, _ => 0 end.
 Definition pg_loss (k : list R) (ws : list (list R)) : R := mse (map (fun w => (dotp k w, 0)) ws).
 
+
+(* multi_scale_total_variation_loss: the sum of the total variations of the pyramid levels *)
+Definition ms_tv (levels : list (list (list (list R)))) : R := rsum (map tv levels).
+
+(* speckle contrast sigma / mean is defined only for windows of non-zero mean *)
+Definition speckle_defined (w : list R) : Prop := win_mean w <> 0.
+
+(* ---- value of the gaze-contingent losses, under the CONTRACT that the pooled statistics, the blur, the
+   fovea mask and the metamer are deterministic functions of (tensor, gaze) (Section variables: whatever
+   they compute).  metameric_loss_stats: mean over the statistics maps of the MSE between the two maps. *)
+Definition stats_loss (a b : list (list R)) : R :=
+  rmean (map (fun p => mse (combine (fst p) (snd p))) (combine a b)).
+Definition rmul (a b : list R) : list R := map (fun p => fst p * snd p) (combine a b).
+Section GazeLossValue.
+Variables (Img Gz : Type).
+Variable pix : Img -> list R.                         (* the pixels (after padding / colour conversion) *)
+Variable statsmaps : Img -> Gz -> list (list R).      (* calc_statsmaps *)
+Variable fovea : Gz -> list R.                        (* fovea mask *)
+Variable blurf : Img -> Gz -> list R.                 (* RadiallyVaryingBlur.blur *)
+Variable metam : Img -> Gz -> list R.                 (* gen_metamer *)
+Definition met_value (fw : R) (img tgt : Img) (g : Gz) : R :=
+  stats_loss (statsmaps img g) (statsmaps tgt g) + fw * mse (combine (rmul (fovea g) (pix img)) (rmul (fovea g) (pix tgt))).
+Definition blur_lowpass_value (img tgt : Img) (g : Gz) : R := mse (combine (blurf img g) (blurf tgt g)).
+Definition blur_match_value (img tgt : Img) (g : Gz) : R := mse (combine (pix img) (blurf tgt g)).
+Definition metamer_mse_value (img tgt : Img) (g : Gz) : R := mse (combine (pix img) (metam tgt g)).
+End GazeLossValue.
+Arguments met_value {Img Gz}.
+Arguments blur_lowpass_value {Img Gz}.
+Arguments blur_match_value {Img Gz}.
+Arguments metamer_mse_value {Img Gz}.
+
 Close Scope R_scope.
 
 (* ================================================================== Part 2: histogram loss over Q *)
@@ -237,6 +268,52 @@ End Run.
 Definition blur_init : rvb_state := None.
 Definition met_init : met_state := (None, None).
 Definition mse_init : mse_state := (None, None).
+
+(* ---- what the object does on a call, beside its result: was the cached target value (statistics /
+   metamer) recomputed, was the LOD map recomputed.  Observable on the implementation by counting the calls
+   of the expensive helpers; compared with the code by the harness (a cache HIT of the code where the model
+   recomputes means that the code's key misses an argument). *)
+Definition rvb_hit (e : env) (s : rvb_state) (shape : Z) (g : nat) : bool :=
+  match s with Some (sh, k, _) => (sh =? shape) && gaze_eqb (gkey_val e k) (gaze_at e g) | None => false end.
+Definition b2z (b : bool) : Z := if b then 1 else 0.
+(* [target value recomputed; LOD map recomputed] *)
+Definition blur_events (d : disc) (e : env) (s : rvb_state) (img tgt g : nat) : list Z :=
+  if negb (c_shape (tensor_at e img) =? c_shape (tensor_at e tgt)) then [0; 0]
+  else [0; b2z (negb (rvb_hit e s (c_shape (tensor_at e tgt)) g))].
+Definition met_events (d : disc) (e : env) (s : met_state) (img tgt g : nat) : list Z :=
+  let ct := tensor_at e tgt in let gv := gaze_at e g in
+  if negb (c_shape (tensor_at e img) =? c_shape ct) then [0; 0] else
+  let '(tc0, rvb) := s in
+  let tc := match tc0 with None => if init_none d then None else Some ((c_shape ct, 0), gv, None) | Some _ => tc0 end in
+  let lodmiss := b2z (negb (rvb_hit e rvb (c_shape ct) g)) in
+  match tc with
+  | None => [1; lodmiss]
+  | Some (c, kg, st) =>
+      if negb (key_shape d) && negb (c_shape c =? c_shape ct) then [0; 0]
+      else if content_eqb c ct && (negb (key_gaze d) || gaze_eqb kg gv) then [0; lodmiss] else [1; lodmiss]
+  end.
+Definition mse_events (d : disc) (e : env) (s : mse_state) (img tgt g : nat) : list Z :=
+  let ct := tensor_at e tgt in let gv := gaze_at e g in
+  if negb (c_shape (tensor_at e img) =? c_shape ct) then [0; 0] else
+  let '(mc, rvb) := s in
+  let lodmiss := b2z (negb (rvb_hit e rvb (c_shape ct) g)) in
+  match mc with
+  | None => [1; lodmiss]
+  | Some (k, kg, m) => if tkey_match e k tgt && (negb (key_gaze d) || gaze_eqb kg gv) then [0; 0] else [1; lodmiss]
+  end.
+Section RunEvents.
+Context {S : Type} (step : env -> S -> nat -> nat -> nat -> S * out) (events : env -> S -> nat -> nat -> nat -> list Z).
+Fixpoint run_events (e : env) (s : S) (ops : list op) : list (list Z) :=
+  match ops with
+  | [] => []
+  | Call i t g :: r => events e s i t g :: run_events e (fst (step e s i t g)) r
+  | o :: r => run_events (apply_env e o) s r
+  end.
+End RunEvents.
+Definition machine_events (which : Z) (d : disc) (e : env) (ops : list op) : list (list Z) :=
+  if which =? 1 then run_events (blur_step d) (blur_events d) e blur_init ops
+  else if which =? 2 then run_events (met_step d) (met_events d) e met_init ops
+  else run_events (mse_step d) (mse_events d) e mse_init ops.
 
 (* ---- flat encodings, for reading the results of vm_compute from the harness *)
 Definition enc_lod (l : lod) : list Z := match l with Lod sh (a, b) => [sh; a; b] end.
